@@ -52,6 +52,9 @@ type label struct {
 	Arm  int    `json:"arm,omitempty"`
 	Src  string `json:"src,omitempty"` // ctx | ctl | offer
 	Drop bool   `json:"drop,omitempty"`
+	// recv of a blocking report only: the reporter's context is cancelled while the monitor is
+	// composing / verifying that value; printed as the two labels LMonRecv; LCancelCall
+	MidCancel bool `json:"midcancel,omitempty"`
 }
 
 type setupT struct {
@@ -160,6 +163,7 @@ type thread struct {
 	ctx       context.Context
 	cancel    context.CancelFunc
 	retK      string
+	offering  bool // positively seen waiting in the library's offering select
 }
 
 type qitem struct {
@@ -202,7 +206,8 @@ type world struct {
 	skipV      bool     // delayed verification still in force (shadow of the monitor's skipVerify)
 	oracleDue  bool     // an update was received since the oracle last ran
 	blanks     map[int]*sourcewrap.Blank
-	blankLock  map[int]bool // a Watcher was handed to the Blank: SetSource is no longer allowed
+	reloadable map[int]*innerMutable // per Blank: the one non-watching inner source object that gets reloaded
+	blankLock  map[int]bool          // a Watcher was handed to the Blank: SetSource is no longer allowed
 	tokens     map[int]any
 
 	steps  []string // printed (label, obs) pairs
@@ -559,6 +564,17 @@ func (w *world) execStart(l label) {
 			b := w.blanks[m.Src]
 			val := toSV(m.V)
 			var inner dials.Source = innerStatic{val}
+			if op.Via == "reload" {
+				// the application re-reads one and the same non-watching source object
+				if w.reloadable == nil {
+					w.reloadable = map[int]*innerMutable{}
+				}
+				if w.reloadable[m.Src] == nil {
+					w.reloadable[m.Src] = &innerMutable{}
+				}
+				w.reloadable[m.Src].v = val
+				inner = w.reloadable[m.Src]
+			}
 			if op.Via == "watcher" {
 				w.blankLock[m.Src] = true
 				inner = innerWatcher{innerStatic{val}, s, w.r}
@@ -587,7 +603,8 @@ func (w *world) execStart(l label) {
 			s.wa.Done(t.ctx)
 			return "RetUnit", "unit"
 		})
-		// no event: the goroutine blocks in its offering select
+		// the goroutine blocks in its offering select (or, wrongly, comes back at once)
+		w.waitOffering(t)
 	case "register":
 		tok := d.ZeroToken()
 		if !op.Zero {
@@ -749,11 +766,20 @@ func (w *world) execAct(l *label) {
 // waitOffering returns once the goroutine of an offering call is positively
 // seen waiting in the library's select on watcherChan, so that the monitor's
 // receive cannot find the channel without a sender.
-func (w *world) waitOffering(t *thread) {
+func (w *world) waitOffering(t *thread) bool {
+	if t.offering {
+		return true
+	}
 	deadline := time.Now().Add(w.r.hardStop)
 	for {
 		if _, ok := w.r.blockedInLibrary(t.tid); ok {
-			return
+			t.offering = true
+			return true
+		}
+		if e, ok := w.r.poll(t.tid, 0); ok {
+			// the call came back without offering anything to the monitor
+			w.noteThread(t, e)
+			return false
 		}
 		if time.Now().After(deadline) {
 			panic(harnessError(fmt.Sprintf("offering call %d never reached its select\n%s", t.tid, allStacks())))
@@ -784,15 +810,35 @@ func (w *world) resolveExit(off *thread) string {
 // known; with several Go picks one and the harness reads it off what follows.
 func (w *world) execRecv(l *label) {
 	off := w.offerer()
-	if off != nil {
-		w.waitOffering(off)
+	if off != nil && !w.waitOffering(off) {
+		off = nil
 	}
 	arms := w.monArms()
+	if len(arms) == 0 {
+		w.stuck = true // nothing to receive any more: the offering call has gone
+		return
+	}
 	if len(arms) > 1 {
 		w.twoArm++
 	}
+	mid := l.MidCancel && off != nil && len(arms) == 1 && arms[0].Src == "offer" && !off.cancelled
+	l.MidCancel = mid
+	if mid {
+		w.r.parkInVerify.Store(true)
+	}
 	w.r.release(whoMon)
-	w.noteMon(w.r.await(whoMon))
+	e := w.r.await(whoMon)
+	if mid {
+		// inside Verify (or, if Verify is not called for this update, right after the receive)
+		w.r.parkInVerify.Store(false)
+		off.cancelled = true
+		off.cancel()
+		if e.kind == evPark && e.point == "mon.verify" {
+			w.r.release(whoMon)
+			e = w.r.await(whoMon)
+		}
+	}
+	w.noteMon(e)
 	if w.stuck {
 		if len(arms) > 0 && l.Src == "" {
 			l.Src, l.Tid = arms[0].Src, arms[0].Tid
@@ -937,6 +983,16 @@ func (w *world) exec(l label) {
 	if stepSink != nil {
 		stepSink(pair)
 	}
+	if l.K == "recv" && l.MidCancel {
+		// the cancellation that happened while the monitor was verifying, as its own step
+		c := label{K: "cancel", Tid: l.Tid}
+		w.counts["label-cancel"]++
+		pair := fmt.Sprintf("(%s, %s)", c.coq(), w.observe(false))
+		w.steps = append(w.steps, pair)
+		if stepSink != nil {
+			stepSink(pair)
+		}
+	}
 }
 
 var stepSink func(string)
@@ -1019,6 +1075,13 @@ func (w *world) replay(ls []label) {
 type innerStatic struct{ v sv }
 
 func (i innerStatic) Value(ctx context.Context, t *dials.Type) (reflect.Value, error) {
+	return mkValue(t, i.v), nil
+}
+
+// a non-watching inner source whose contents change between SetSource calls
+type innerMutable struct{ v sv }
+
+func (i *innerMutable) Value(ctx context.Context, t *dials.Type) (reflect.Value, error) {
 	return mkValue(t, i.v), nil
 }
 
